@@ -584,6 +584,8 @@ class StmtMixin:
         self.pc.append(z3.And(i.t >= 0, i.t <= n))
         self.assume_inv(spec)
         self.log.append(("LOOP", {"idx": idx, "mode": mode}, None))
+        # (per-iteration bookkeeping of an enclosing loop is restored when this loop is left)
+        outer_iter = (getattr(self, "iter_log_start", 0), getattr(self, "iter_envs", None), getattr(self, "iter_heap", None))
         self.iter_log_start = len(self.log)
         self.iter_envs = self.snapshot_envs()
         self.iter_heap = dict(self.heap)
@@ -598,6 +600,7 @@ class StmtMixin:
                 except ContinueSig:
                     pass
             except BreakSig:
+                self.iter_log_start, self.iter_envs, self.iter_heap = outer_iter
                 return      # leaves the loop with the state at the break
             finally:
                 self.loop_depth -= 1
@@ -610,6 +613,7 @@ class StmtMixin:
                            z3.And(self.zi(dec1) < self.zi(dec0), self.zi(dec0) >= 0))
             raise PathEnd()
         self.pc.append(i.t == n)
+        self.iter_log_start, self.iter_envs, self.iter_heap = outer_iter
         self.exec_block(s.orelse)
 
     def check_body_ensures(self, spec, idx):
